@@ -371,7 +371,29 @@ func asyncCase(k cell, maxDelayed, shard, shards int) harness.Case {
 			sets = [][]cryptolib.MsgID{rp.Delayed}
 			shard, shards = 0, 1
 		}
-		for i, set := range sets {
+		// each set is run twice: as a set of delayed messages, and (single messages, and pairs made
+		// of a duplicated and a delayed message) with its first message delivered twice
+		type variant struct {
+			set []cryptolib.MsgID
+			dup bool
+		}
+		var vars []variant
+		for _, set := range sets {
+			vars = append(vars, variant{set, false})
+			if len(set) >= 1 && c.Replay == nil {
+				vars = append(vars, variant{set, true})
+			}
+		}
+		if c.Replay != nil {
+			var rp struct {
+				Dup bool `json:"first_duplicated"`
+			}
+			if json.Unmarshal(c.Replay, &rp) == nil && rp.Dup {
+				vars[0].dup = true
+			}
+		}
+		for i, vr := range vars {
+			set := vr.set
 			if i%shards != shard {
 				continue
 			}
@@ -379,10 +401,17 @@ func asyncCase(k cell, maxDelayed, shard, shards int) harness.Case {
 				c.Cap("time")
 				return
 			}
-			c.Exec(fmt.Sprintf("[async] %v delayed %v", k, set))
+			c.Exec(fmt.Sprintf("[async] %v delayed %v first duplicated %v", k, set, vr.dup))
 			dl := map[cryptolib.MsgID]bool{}
-			for _, m := range set {
+			for j, m := range set {
+				if vr.dup && j == 0 {
+					continue
+				}
 				dl[m] = true
+			}
+			cryptolib.AsyncDup = nil
+			if vr.dup {
+				cryptolib.AsyncDup = map[cryptolib.MsgID]bool{set[0]: true}
 			}
 			var shares map[uint16][]byte
 			var errs map[uint16]error
@@ -396,7 +425,8 @@ func asyncCase(k cell, maxDelayed, shard, shards int) harness.Case {
 			c.Add("executions", 1)
 			c.Add("transitions", len(trace))
 			c.State("async|" + k.String() + "|" + strings.Join(trace, ";"))
-			rp := map[string]interface{}{"cell": k.String(), "delayed": set}
+			cryptolib.AsyncDup = nil
+			rp := map[string]interface{}{"cell": k.String(), "delayed": set, "first_duplicated": vr.dup}
 			failed := false
 			for _, id := range cryptolib.IDs(k.n) {
 				if err := errs[id]; err != nil {
